@@ -40,6 +40,10 @@ pub fn judge_result(ctx: &Ctx, l: &mut Local, p: &Params, site: Site, date: Naiv
     for pr in [Prayer::Fajr, Prayer::Isha, Prayer::Imsaak] {
         let Some(a) = angle_defined(p, pr) else { continue };
         let Some(o) = off(&r, pr) else { continue };
+        // a time flagged extreme is a fallback value, not a conventional one (C08/C09/C10 judge those)
+        if flag(r, pr) == Some(true) {
+            continue;
+        }
         any = true;
         let name = format!("{:?}", pr);
         let h = o as f64 / 240.0; // degrees
@@ -182,6 +186,23 @@ pub fn explore(ctx: &Ctx) {
     ctx.alphabet("custom_angles", json!({"jobs": jobs2.len(), "angle_triples_fajr_isha_imsaak": [[9, 21, 0.5], [21, 9, 3], [12, 12, 1], [16.5, 14, 2]], "dates": yd.len()}));
     par_jobs(ctx, &jobs2, |(site, p), l| {
         for &d in &yd {
+            judge(ctx, l, p, *site, d);
+        }
+    });
+    // under 'only if invalid' policies every time that is NOT flagged extreme still claims to be the
+    // conventional one: it must sit at its configured depression as well
+    let mut jobs3 = vec![];
+    for &lat in &[48.0, -48.0, 52.0, 55.0, -55.0, 60.0, -60.0] {
+        for pol in [ExtremeLatitudeMethod::NearestGoodDayFajrIshaInvalid, ExtremeLatitudeMethod::AngleBased, ExtremeLatitudeMethod::SeventhOfNightFajrIshaInvalid, ExtremeLatitudeMethod::NearestLatitudeFajrIshaInvalid(lat_of(45.0))] {
+            for m in [Method::Mwl, Method::Egyptian, Method::Isna] {
+                jobs3.push((Site::new(lat, 25.0, 0.0, 2.0), params(m, pol, RoundSeconds::None)));
+            }
+        }
+    }
+    let yd3 = dates_of_years(if quick { &[2024] } else { &YEARS6 });
+    ctx.alphabet("unflagged_times_under_invalid_only_policies", json!({"jobs": jobs3.len(), "lats": [48, -48, 52, 55, -55, 60, -60], "policies": 4, "methods": 3, "dates": yd3.len()}));
+    par_jobs(ctx, &jobs3, |(site, p), l| {
+        for &d in &yd3 {
             judge(ctx, l, p, *site, d);
         }
     });
